@@ -231,6 +231,8 @@ DUP_PROGRAMS = [
     "f:\n    mv a0, s1\n    ret\nmain:\n    call f\n    li a7, 10\n    ecall\n",
     "f:\n    add a0, s1, t0\n    ret\nmain:\n    li t0, 1\n    call f\n    li a7, 10\n    ecall\n",
     "main:\n    jal t1, K2\nK1:\n    j L1\n    j L1\n    jal ra, L2\nL1:\n    jr ra\nL2:\n    la t2, L2\n    csrrw zero, 5, t2\nK2:\n    beq t0, t1, K1\n",
+    # a load with a label inside .data: two nodes from one token, both in the wrong segment
+    ".data\nx: .word 1\n    lw t0, x\n    sw t0, x, t1\n.text\nmain:\n    li a7, 10\n    ecall\n",
 ]
 
 # several files that hold code at the same line/column/offset (anything keyed on a range alone confuses them)
